@@ -167,10 +167,25 @@ def _shard(args):
     return res
 
 
+def _shard_entry(job, tx):
+    try:
+        tx.send(_shard(job))
+    finally:
+        tx.close()
+
+
+def _last_case(pid, shard):
+    try:
+        with open(_hb_path(pid, shard)) as f:
+            return '; last case: ' + f.read()[:600]
+    except OSError:
+        return ''
+
+
 def _heartbeat(prop, shard, case):
     """Hang detection support (props with ``hang_timeout``): the case about to be evaluated is written to tmpfs so that
     the parent can name the culprit when a worker stops making progress inside C code (e.g. a backtracking regex)."""
-    if not getattr(prop, 'hang_timeout', None):
+    if not getattr(prop, 'hang_timeout', None) and not getattr(prop, 'track_cases', False):
         return
     try:
         with open(_hb_path(prop.id, shard), 'w') as f:
@@ -483,15 +498,35 @@ def run_check(pid, tier, seed):
         jobs = [(pid, tier, seed, s, per, deadline, enum_list[s::NSHARDS]) for s in range(NSHARDS)]
         ctx = multiprocessing.get_context('fork')
         hang_cases = []
-        with ctx.Pool(min(NSHARDS, os.cpu_count() or 1)) as pool:
-            asyncs = [pool.apply_async(_shard, (j,)) for j in jobs]
+        # one process per shard (not a Pool: a worker that is killed - e.g. by the OOM killer while unpickling a corrupted
+        # cache file - must be *noticed*; a Pool silently replaces it and its result never arrives)
+        workers = {}
+        for i, j in enumerate(jobs):
+            rx, tx = ctx.Pipe(duplex=False)
+            pr = ctx.Process(target=_shard_entry, args=(j, tx))
+            pr.start()
+            tx.close()
+            workers[i] = (pr, rx)
+        try:
             hang = getattr(prop, 'hang_timeout', None)
             results = []
-            pending = dict(enumerate(asyncs))
+            pending = dict(workers)
             while pending:
                 for i in list(pending):
-                    if pending[i].ready():
-                        results.append(pending.pop(i).get())
+                    pr, rx = pending[i]
+                    if rx.poll():
+                        try:
+                            results.append(rx.recv())
+                        except EOFError:
+                            errors.append('shard %d: worker exited without a result (exit code %r)%s' % (i, pr.exitcode, _last_case(pid, i)))
+                        pending.pop(i)
+                        pr.join(5)
+                    elif not pr.is_alive():
+                        if rx.poll():
+                            continue
+                        errors.append('shard %d: worker died (exit code %r; negative = killed by that signal, -9 is what the OOM '
+                                      'killer sends)%s' % (i, pr.exitcode, _last_case(pid, i)))
+                        pending.pop(i)
                 if not pending:
                     break
                 time.sleep(0.2)
@@ -512,7 +547,12 @@ def run_check(pid, tier, seed):
                             pending.pop(i)       # that worker is stuck; its partial results are lost
                     if hang_cases and not any(True for i in pending):
                         break
-            pool.terminate()
+        finally:
+            for pr, rx in workers.values():
+                if pr.is_alive():
+                    pr.kill()
+                pr.join(5)
+                rx.close()
         for i in range(NSHARDS):
             try:
                 os.remove(_hb_path(pid, i))
